@@ -42,9 +42,22 @@ pub fn slp_opts(skip: bool, hash: bool) -> slippi::de::Opts {
 	slippi::de::Opts { skip_frames: skip, compute_hash: hash, debug: None }
 }
 
+/// How the bytes are served is an environment choice that must not matter; it is rotated over the
+/// inputs (deterministically, by content hash) so that every check also sees fragmented reads and a
+/// stream that does not start at position 0: 2/6 plain cursor, 1-byte, 7-byte and 4096-byte chunks,
+/// and a reader positioned after 4099 bytes of unrelated data.
 pub fn read_slp(b: &[u8], skip: bool, hash: bool) -> Result<Game, Fail> {
+	use crate::env::{EnvReader, PrefixedReader, Sched};
 	let opts = slp_opts(skip, hash);
-	match catch(|| slippi::read(Cursor::new(b), Some(&opts))) {
+	let variant = if std::env::var("VERIF_PLAIN_READS").is_ok() { 0 } else { crate::util::xx(b) % 6 };
+	let r = match variant {
+		2 => catch(|| slippi::read(EnvReader::new(b, Sched::Chunk(1)), Some(&opts))),
+		3 => catch(|| slippi::read(EnvReader::new(b, Sched::Chunk(7)), Some(&opts))),
+		4 => catch(|| slippi::read(EnvReader::new(b, Sched::Chunk(4096)), Some(&opts))),
+		5 => catch(|| slippi::read(PrefixedReader::new(b, 4099), Some(&opts))),
+		_ => catch(|| slippi::read(Cursor::new(b), Some(&opts))),
+	};
+	match r {
 		Ok(Ok(g)) => Ok(g),
 		Ok(Err(e)) => Err(Fail::Err(e.to_string())),
 		Err(p) => Err(Fail::Panic(p)),
@@ -112,8 +125,16 @@ pub fn write_slpp_default(g: Game) -> Result<Vec<u8>, Fail> {
 }
 
 pub fn read_slpp(b: &[u8], skip: bool) -> Result<Game, Fail> {
+	use crate::env::{EnvReader, Sched};
 	let opts = ppi::de::Opts { skip_frames: skip };
-	match catch(|| ppi::read(Cursor::new(b), Some(&opts))) {
+	let variant = if std::env::var("VERIF_PLAIN_READS").is_ok() { 0 } else { crate::util::xx(b) % 5 };
+	let r = match variant {
+		2 => catch(|| ppi::read(EnvReader::new(b, Sched::Chunk(3)), Some(&opts))),
+		3 => catch(|| ppi::read(EnvReader::new(b, Sched::Chunk(511)), Some(&opts))),
+		4 => catch(|| ppi::read(EnvReader::new(b, Sched::Chunk(1)), Some(&opts))),
+		_ => catch(|| ppi::read(Cursor::new(b), Some(&opts))),
+	};
+	match r {
 		Ok(Ok(g)) => Ok(g),
 		Ok(Err(e)) => Err(Fail::Err(e.to_string())),
 		Err(p) => Err(Fail::Panic(p)),
